@@ -319,9 +319,57 @@ def r8(ctx, facts):
                 if in_set(stt.get(("disc", root)), {1}):
                     return True
         return False
+    def selected_by_lookup(st):
+        """`picked` is what `ring.find(|node| ..)` returned, and that predicate is true only where the lookup succeeded"""
+        fields = st[2][1][4]
+        if "picked" not in fields:
+            return False
+        _, calls, _ = backward_slice(b, st[2][2][fields.index("picked")])
+        for fc in calls:
+            if not (fc.decl or "").endswith(("Iterator::find", "Iterator::find_map")) or len(fc.args) < 2:
+                continue
+            for l in backward_slice(b, fc.args[1])[0]:
+                for d in b.defs.get(l, []):
+                    if not (d[0] == "stmt" and d[3][0] == "agg" and d[3][1][0] == "closure"):
+                        continue
+                    cb = facts.body(d[3][1][1])
+                    if cb is None:
+                        continue
+                    cdj = dj_of(cb, facts)
+                    look = [c for bbc, c in cb.calls() if bbc in cb.live_blocks and (c.decl or "").split("::")[-1] in ("get", "contains_key") and "HashMap" in (c.decl or "")]
+                    if not look:
+                        continue
+
+                    def known(stt):
+                        for g in look:
+                            if g.decl.endswith("contains_key"):
+                                if in_set(stt.get(("call", g.bb)), {1}):
+                                    return True
+                            elif in_set(stt.get(("disc", cdj.disc_root(cdj.canon.path(g.dest)))), {1}):
+                                return True
+                        return False
+                    good, n = True, 0
+                    for bbc in sorted(cb.live_blocks):
+                        for jc, sc in enumerate(cb.stmts(bbc)):
+                            if not (sc[0] == "A" and sc[1] == [0, []]):
+                                continue
+                            n += 1
+                            e = cdj.expr_of_rvalue(sc[2])
+                            for stt in cdj.states_before_stmt(bbc, jc):
+                                v = cdj.eval_in(stt, e) if e is not None else None
+                                if v == 0:
+                                    continue
+                                # true, or the very outcome of `get(..).is_some()` / `contains_key(..)`
+                                is_lookup_outcome = e is not None and e[0] == "call" and any(
+                                    e[1] == g.bb or (cb.term(e[1])[0] == "call" and g.dest[0] in backward_slice(cb, cb.term(e[1])[2][0])[0]) for g in look)
+                                if not (known(stt) or is_lookup_outcome):
+                                    good = False
+                    if good and n:
+                        return True
+        return False
     for bb, j, st in picks:
         sts = dj.states_before_stmt(bb, j)
-        ok = bool(gets) and bool(sts) and all(known_dc(x) for x in sts)
+        ok = (bool(gets) and bool(sts) and all(known_dc(x) for x in sts)) or selected_by_lookup(st)
         r.instance("primary-is-in-replicating-dc", ok,
                    "the node recorded as `picked` (and yielded as the primary replica) must come from the region where datacenter_repfactors has an entry for the node's "
                    "datacenter; otherwise the owner of the next vnode - possibly in a datacenter without replicas - is the first target of LWT plans", b.stmt_span(st))
